@@ -55,3 +55,19 @@ check("C03", "exploration", "reference-model monitor (object subjects) + differe
       "Every request of the C01 request space is sent to a weighted_graph_check server (v2 strategies forced in turn, fallback observed through the captured server log) and to a v1 server on the same datastore. Object subjects must satisfy the C01 acceptance relation; for wildcard/userset subjects a decision differing from v1 must come with the detector's warning. Several genuine defects of the weighted-graph engine are listed as known findings with firing conditions.",
       "Observed at the server path (v2 + fallback); raw v2 errors seen through the fallback warning; reference semantics harness/ref.",
       "DESIGN.md §5 C03")
+check("C04", "exploration", "differential monitor (tuple set split stored/contextual vs fully stored) + cache-leak history monitor + datastore persistence monitor, reference model arbitrating",
+      "For each seeded case the model-valid tuple set X is split X = S + C; answers of Check, BatchCheck, ListObjects (3 engines), ListUsers and Expand with S stored and C contextual must equal those with all of X stored; on servers with every cache enabled (v1+pipeline, and weighted_graph_check) a history interleaving requests with contextual sets C, halves of C and none must match the reference for its own set; afterwards the store must hold exactly S.",
+      "Reference semantics harness/ref; Expand trees compared modulo order of leaf users and tuple-to-userset computed entries; memory backend.",
+      "DESIGN.md §5 C04")
+check("C06", "exploration", "reference-model monitor on ListUsers result sets (filter match, duplicates, per-entry Check value, completeness)",
+      "For every object, relation and user filter (object types and every userset type#relation) of each seeded case the ListUsers answer is compared with the reference: entries match the filter, appear once, hold the relation as individual Check subjects; without limit every concrete K=T user is returned or covered by a returned wildcard; with a result limit only soundness and the bound.",
+      "Reference semantics harness/ref; answers that took >=80% of the (1.5 s) ListUsers deadline are judged for soundness only; memory backend.",
+      "DESIGN.md §5 C06")
+check("C12", "fault_enumeration", "sequential-model differential over Write histories; driver-level error / lost-connection / SIGKILL injection at every statement boundary of the sqlite write transaction; concurrent group and marker conservation monitor under -race",
+      "For every enumerated transaction shape (6 quick / 40 thorough, incl. a multi-batch shape) a statement error, a lost connection or a process kill at every driver call leaves the reopened sqlite file in exactly the pre-state or the post-state; on_duplicate / on_missing semantics match a sequential model on thousands of random histories on memory and sqlite; no torn group or request is visible to single-statement reads under concurrent writers.",
+      "sqlite's own transactional correctness trusted; lost connection modelled as connection close, failed COMMIT as abort; SQLITE_BUSY on COMMIT, OS I/O errors, power loss and postgres/mysql not covered; shapes are a sample.",
+      "DESIGN.md §5 C12")
+check("C15", "exploration", "conservation / replay oracle over recorded write histories; paginated, type-filtered and descending ReadChanges walks against a sequential model; bracketed horizon judgement; one forced two-writer schedule",
+      "On random sequential histories (120 quick / 3000 thorough) on memory and sqlite every ReadChanges walk replays to the current store, has exactly one entry per effective write or delete, its descending walk is the reverse of the ascending one, and the horizon withholds exactly the entries certainly younger than it.",
+      "100 ms horizon margin and a clock that is not stepped; histories sequential except the forced schedule.",
+      "DESIGN.md §5 C15")
